@@ -40,4 +40,14 @@ def bitSummaryToDays (n : Int) : Py (List Nat) :=
     pure ((List.range Gen.days.length).filter (fun i => dayHexRep i &&& n.toNat != 0))
   else throw .valueError
 
+/-- `calc_duration` -/
+def calcDuration (startTime endTime : List Char) : Py (List Char) :=
+  match parseHM startTime, parseHM endTime with
+  | some (h1, m1), some (h2, m2) =>
+    let a := 60 * h1 + m1
+    let b := 60 * h2 + m2
+    let b' := if b < a then b + 1440 else b          -- `end_datetime += timedelta(days=1)`
+    pure (strTimedelta ((b' - a) * 60))
+  | _, _ => throw .valueError
+
 end Model
